@@ -111,6 +111,39 @@ example : gmrfLogProb (Real.log (2 * Real.pi)) 2 (scaledDiffSq (some [4, 8]) [1,
       - (((3 - 1 : ℕ) : ℤ) : ℝ) / 2 * Real.log (2 * Real.pi) :=
   gmrf_density_is_gaussian_form _ 2 [1, 3, 0] (some [4, 8]) (by intro ws h; cases h; rfl) (by simp)
 
+/-- length of the time-aware divisor: one per first difference of the field -/
+theorem length_timeAwareWeights (rescale : Bool) (internal : List ℝ) (h : 1 ≤ internal.length) :
+    (timeAwareWeights rescale internal).length + 1 = internal.length := by
+  have hs : (sortedHeights internal).length = internal.length + 1 := by
+    unfold sortedHeights times
+    rw [List.length_map, (sortEvents_perm _).length_eq]
+    simp
+  have hd : (diffs (sortedHeights internal)).length = internal.length := by
+    rw [length_diffs, hs]; rfl
+  unfold timeAwareWeights
+  cases rescale <;>
+    simp only [Bool.false_eq_true, if_false, if_true, List.length_map, List.length_zipWith, List.length_tail, hd] <;>
+    omega
+
+/-- **gmrf_timeaware_gaussian_form** — the time-aware GMRF (with or without rescaling by the root height): the
+divisor of each squared difference is the mean of the two adjacent inter-coalescent durations of the SORTED
+`[0] ++ internal heights` (sorted by the C08 event sort, any input order, ties allowed), and the log density is the
+Gaussian form of the matrix `precision_matrix` publishes for those weights (F19 as repaired). -/
+theorem gmrf_timeaware_gaussian_form (log2pi τ : ℝ) (field internal : List ℝ) (rescale : Bool)
+    (hlen : internal.length = field.length) (hn : 1 ≤ field.length) :
+    gmrfLogProb log2pi τ (scaledDiffSq (some (timeAwareWeights rescale internal)) field) field.length
+      = Real.log τ * (((field.length - 1 : ℕ) : ℤ) : ℝ) / 2
+        - quadForm (precisionMatrix (offDiag τ (some (timeAwareWeights rescale internal)) field.length)) field / 2
+        - (((field.length - 1 : ℕ) : ℤ) : ℝ) / 2 * log2pi :=
+  gmrf_density_is_gaussian_form log2pi τ field _
+    (by intro ws h; cases h; rw [length_timeAwareWeights rescale internal (by omega), hlen]) hn
+
+example : gmrfLogProb 0 2 (scaledDiffSq (some (timeAwareWeights true [3, 1, 2])) [1, 4, 2]) 3
+    = Real.log 2 * (((3 - 1 : ℕ) : ℤ) : ℝ) / 2
+      - quadForm (precisionMatrix (offDiag 2 (some (timeAwareWeights true [3, 1, 2])) 3)) [1, 4, 2] / 2
+      - (((3 - 1 : ℕ) : ℤ) : ℝ) / 2 * 0 :=
+  gmrf_timeaware_gaussian_form 0 2 [1, 4, 2] [3, 1, 2] true rfl (by simp)
+
 /-! ## the precision integrated out -/
 
 /-- **gamma_integrated** — `∫_0^∞ Gamma(τ; a, b) · GMRF(x | τ) dτ` is the closed form `GMRFGammaIntegrated`
